@@ -85,6 +85,14 @@ def catalogue():
          step("Read", "A", 1), step("Read", "A", 2), step("Push", "A", m=k), step("Push", "A", m=o), step("Fetch", "B", m=k), step("MergeAll", "B", m=k),
          step("MergeAll", "B", m=o), step("Read", "B", 2)]
     scheds.append({"replicas": REPLICAS2, "steps": s, "quiesce": True, "name": "two-remotes-crossed"})
+    # both replicas merge the same pair of heads independently (each got the other's head over another remote): two different
+    # merge commits of the same parents, which then meet
+    s = [step("NewBug", "A", runs=one), step("Push", "A", m=o), step("Push", "A", m=k), step("Fetch", "B", m=o), step("MergeAll", "B", m=o),
+         step("Edit", "A", 1, one), step("Edit", "B", 1, two), step("Push", "A", m=o), step("Push", "B", m=k),
+         step("Fetch", "A", m=k), step("MergeAll", "A", m=k), step("Fetch", "B", m=o), step("MergeAll", "B", m=o),
+         step("Push", "A", m=o), step("Fetch", "B", m=o), step("MergeAll", "B", m=o), step("Read", "B", 1), step("Edit", "B", 1, two),
+         step("Push", "B", m=o), step("Push", "B", m=k), step("Fetch", "A", m=o), step("MergeAll", "A", m=o), step("Read", "A", 1), step("Read", "B", 1)]
+    scheds.append({"replicas": REPLICAS2, "steps": s, "quiesce": True, "name": "two-remotes-twin-merges"})
     s = [step("NewBug", "C", runs=mixed), step("Push", "C", m=o), step("Fetch", "A", m=o), step("MergeAll", "A", m=o), step("Edit", "A", 1, one), step("Push", "A", m=k),
          step("Edit", "C", 1, two), step("Push", "C", m=o), step("Fetch", "B", m=k), step("MergeAll", "B", m=k), step("Fetch", "B", m=o), step("MergeAll", "B", m=o),
          step("Read", "B", 1), step("Push", "B", m=k), step("Push", "B", m=o), step("Fetch", "A", m=k), step("MergeAll", "A", m=k), step("Fetch", "C", m=o),
@@ -104,6 +112,15 @@ def restart_catalogue():
         s = [step("NewBug", "A", runs=one), step("Edit", "A", 1, one), step("Edit", "A", 1, one), step("NewBug", "A", runs=one), step("Edit", "A", 2, one),
              step("DeleteClocks", "A", which), step("Reopen", "A", loaders=True), step("NewBug", "A", runs=one), step("Edit", "A", 1, one), step("Read", "A", 1)]
         scheds.append({"replicas": REPLICAS2, "steps": s, "quiesce": True, "name": "restart-one-clock-file-lost-%d" % which})
+    # a merge commit made while the clocks are behind the local branch (files lost, reopened the way the commands reopen: without
+    # loaders): the merge itself has to witness both branches
+    for which in (0, 1):
+        for na, nb in ((3, 1), (2, 2), (1, 3)):
+            s = [step("NewBug", "A", runs=one), step("Push", "A"), step("Fetch", "B"), step("MergeAll", "B")]
+            s += [step("Edit", "A", 1, one) for _ in range(na)] + [step("Edit", "B", 1, one) for _ in range(nb)]
+            s += [step("Push", "B"), step("DeleteClocks", "A", which), step("Reopen", "A", loaders=False), step("Fetch", "A"), step("MergeAll", "A"),
+                  step("Read", "A", 1), step("Edit", "A", 1, one), step("Push", "A"), step("Fetch", "B"), step("MergeAll", "B"), step("Read", "B", 1)]
+            scheds.append({"replicas": REPLICAS2, "steps": s, "quiesce": True, "name": "merge-with-clocks-behind-%d-%d-%d" % (which, na, nb)})
     for ld in (True, False):
         for dele in (True, False):
             s = [step("NewBug", "A", runs=one), step("Edit", "A", 1, one), step("Push", "A"), step("Fetch", "B"),
@@ -188,10 +205,10 @@ def uniform(c, n, replicas, nbug=3, depth=18, restart=False, remotes=("origin", 
                 ref[r] |= trk[r, m]
                 steps.append(step("MergeAll", r, m=m))
             elif a == "Reopen":
-                steps.append(step("Reopen", r, loaders=True))
+                steps.append(step("Reopen", r, loaders=rnd.random() < 0.7))
             else:
                 steps.append(step("DeleteClocks", r, rnd.randint(0, 2)))
-                steps.append(step("Reopen", r, loaders=True))
+                steps.append(step("Reopen", r, loaders=rnd.random() < 0.7))
         out.append({"replicas": list(replicas), "steps": steps, "quiesce": True, "name": "uniform-%d" % k})
     return out
 
